@@ -21,18 +21,26 @@ LEVEL_TEXT = (
     "is_printable_as_block_string implies block-representable; (2) with the real parser model (C01's crash-faithful "
     "model of parser.py): parse_type(print t) = t for every type tree, parse_value / parse_const_value(print v) = v for "
     "every well-formed value tree in every layout the printer can choose (render_lex for values), and "
-    "parse(print d) = d for executable documents of operations, fragment definitions, fields, arguments, directives, "
-    "fragment spreads and inline fragments (stage 1: no variable definitions, descriptions, fragment arguments or "
-    "type-system definitions yet). The full document statement (roundtrip_full) is evaluated directly on the "
-    "implementation for every generated source and programmatic tree."
+    "parse(print d) = d for documents of (stages 1-2) operations and fragment definitions with descriptions, variable "
+    "definitions (defaults, const directives; on fragments under the experimental flag), fields, arguments, directives, "
+    "fragment spreads and inline fragments, and (stage 3) schema, scalar, object, interface, union, enum, input object "
+    "and directive definitions with descriptions, argument definitions in both layouts, `&` / `|` lists, repeatable, "
+    "directives on directive definitions under the flag, and the type-system extensions (extend schema / scalar / type / "
+    "interface / union / enum / input) - including the printer's `query` keyword before a shorthand query that follows "
+    "a definition or extension without a block. For the type entry point also with no well-formedness hypothesis "
+    "(parse_wf_type: every tree parse_type returns is a typed tree). Not yet: arguments on fragment spreads and "
+    "`extend directive` (both behind experimental flags). "
+    "The full document statement (roundtrip_full) is evaluated directly on the implementation for every generated "
+    "source and programmatic tree."
 )
 LEVEL_NOTE = (
     "Trusted: Lean kernel; the hand-written models Gql/Text/PrintString.lean, BlockString.lean, Gql/Syntax/Printer.lean "
     "(tied to the code by byte-for-byte correspondence on every enumerated string and generated tree of the run), the "
     "shared lexer and parser models (Gql/Text/Lexer.lean, Gql/Syntax/Parser.lean; tied by C01/C09's correspondence); the "
-    "harness. Not proved: round trip for the remaining document node kinds (variable definitions, descriptions, type "
-    "system) and the converse 'every parsed tree is one of the typed well-formed trees' - both covered by the "
-    "implementation-side round-trip oracle, not by a theorem."
+    "harness. Not proved: round trip for the remaining document node kinds (arguments on fragment spreads, `extend "
+    "directive`) and, for values and documents, the converse 'every parsed tree is one of the typed well-formed trees' (needs the inversion of the "
+    "lexer; a string value copied from a source that holds a surrogate code point verbatim is outside the typed trees) - "
+    "both covered by the implementation-side round-trip oracle, not by a theorem."
 )
 TECHNIQUE = "Lean 4 proof about executable models + T1 table + differential correspondence + round-trip oracle"
 TRUSTED = [
@@ -60,7 +68,8 @@ ASSUMPTIONS = [
 EXPLANATION = (
     "Theorems (Gql/Props/C08.lean): escape_table_* (T1, decide), printString_roundtrip, block_roundtrip, "
     "block_indent_roundtrip, lex_block_representable, printable_representable, type_print_lex, roundtrip_type, "
-    "render_lex_value, roundtrip_value, render_lex_document_partial, roundtrip_document_partial (parser model = "
+    "parse_wf_type, roundtrip_type_parsed, render_lex_value, roundtrip_value, render_lex_document_partial, "
+    "roundtrip_document_partial (parser model = "
     "Gql.Syntax.parseSource); roundtrip_full is the stated full Prop. Correspondence: model text = implementation text "
     "for print_string / print_block_string (both minimize) / is_printable_as_block_string (exhaustive over a 12-symbol "
     "alphabet + random scalar strings) and print_ast (every generated tree incl. ()/None variants and the repo fixtures). "
